@@ -660,6 +660,9 @@ func c18Run(c *Case) (string, []Fail) {
 	if c.Kind == 2 {
 		return c18RunBacklogCase(c) // backlog at the stop: c18_backlog.go
 	}
+	if c.Kind == 3 || c.Kind == 4 {
+		return c18RunStopWaitCase(c) // queue full at the stop / connection registering after the stop: c18_stopwait.go
+	}
 	if c.Kind != 1 || len(c.Z) < 20 {
 		return "badcase", nil
 	}
@@ -728,6 +731,10 @@ func c18Gen(g *Gen) {
 	// ---- backlog at the stop request (see c18_backlog.go) ----
 	if os.Getenv("C18_ONLY") == "" || os.Getenv("C18_ONLY") == "backlog" {
 		c18GenBacklog(g)
+	}
+	// ---- waits of the shutdown path: full queue at the stop, late-registering connection (see c18_stopwait.go) ----
+	if o := os.Getenv("C18_ONLY"); o == "" || o == "qfull" || o == "lsnr" {
+		c18GenStopWaits(g)
 	}
 	for name, ts := range c18Times {
 		var max int64
